@@ -439,9 +439,41 @@ func actTerm(seek bool, key []byte) string {
 
 const maxSteps = 5000
 
-func (r *iterRun) dbProbe(asc, keyOnly bool, lower, upper []byte, seek bool, target []byte) string {
+// preOp is one positioning operation performed on an iterator before the
+// probe's own one, followed by a number of Next calls.
+type preOp struct {
+	seek   bool
+	target []byte
+	nexts  int
+}
+
+func preTerm(pre []preOp, probe string) string {
+	if len(pre) == 0 {
+		return probe
+	}
+	var s []string
+	for _, p := range pre {
+		s = append(s, fmt.Sprintf("Pre %s %d", actTerm(p.seek, p.target), p.nexts))
+	}
+	return fmt.Sprintf("PSeq %s (%s)", corr.List(s), probe)
+}
+
+func (r *iterRun) dbProbe(asc, keyOnly bool, lower, upper []byte, seek bool, target []byte, pre ...preOp) string {
 	it := r.db.NewIterator(&utils.Options{IsAsc: asc, OnlyUseKey: keyOnly, LowerBound: lower, UpperBound: upper})
 	defer func() { _ = it.Close() }()
+	for _, p := range pre {
+		if p.seek {
+			it.Seek(p.target)
+		} else {
+			it.Rewind()
+		}
+		for i := 0; i < p.nexts; i++ {
+			it.Next()
+		}
+	}
+	if len(pre) > 0 {
+		r.c.Count("probe_db_sequence")
+	}
 	if seek {
 		it.Seek(target)
 	} else {
@@ -470,7 +502,7 @@ func (r *iterRun) dbProbe(asc, keyOnly bool, lower, upper []byte, seek bool, tar
 	if len(items) > 0 {
 		r.c.Count("probe_nonempty")
 	}
-	return fmt.Sprintf("PDb (Od %s %s %s %s) %s %s", corr.Bool(asc), corr.Bool(keyOnly), corr.Hex(lower), corr.Hex(upper), actTerm(seek, target), corr.List(items))
+	return preTerm(pre, fmt.Sprintf("PDb (Od %s %s %s %s) %s %s", corr.Bool(asc), corr.Bool(keyOnly), corr.Hex(lower), corr.Hex(upper), actTerm(seek, target), corr.List(items)))
 }
 
 type tOpts struct {
@@ -493,7 +525,7 @@ func pwTerm(h *heldTxn) string {
 	return corr.List(s)
 }
 
-func (r *iterRun) txnProbe(h *heldTxn, o tOpts, seek bool, target []byte) string {
+func (r *iterRun) txnProbe(h *heldTxn, o tOpts, seek bool, target []byte, pre ...preOp) string {
 	io := NoKV.IteratorOptions{Reverse: o.rev, AllVersions: o.all, KeyOnly: o.keyOnly, SinceTs: o.since, LowerBound: o.lower, UpperBound: o.upper}
 	var it *NoKV.TxnIterator
 	if o.pik {
@@ -503,6 +535,19 @@ func (r *iterRun) txnProbe(h *heldTxn, o tOpts, seek bool, target []byte) string
 		it = h.txn.NewIterator(io)
 	}
 	defer it.Close()
+	for _, p := range pre {
+		if p.seek {
+			it.Seek(p.target)
+		} else {
+			it.Rewind()
+		}
+		for i := 0; i < p.nexts; i++ {
+			it.Next()
+		}
+	}
+	if len(pre) > 0 {
+		r.c.Count("probe_txn_sequence")
+	}
 	if seek {
 		it.Seek(target)
 	} else {
@@ -538,7 +583,7 @@ func (r *iterRun) txnProbe(h *heldTxn, o tOpts, seek bool, target []byte) string
 	if len(items) > 0 {
 		r.c.Count("probe_nonempty")
 	}
-	return fmt.Sprintf("PTxn %d %s %s %s %s", h.readTs, pwTerm(h), o.term(), actTerm(seek, target), corr.List(items))
+	return preTerm(pre, fmt.Sprintf("PTxn %d %s %s %s %s", h.readTs, pwTerm(h), o.term(), actTerm(seek, target), corr.List(items)))
 }
 
 func (r *iterRun) getsProbe(h *heldTxn) string {
@@ -567,6 +612,32 @@ func (r *iterRun) optBound(p int) []byte {
 		return corr.Pick(r.rng, seekTargets)
 	}
 	return nil
+}
+
+// randPre draws the positioning operations performed before the probe's own:
+// none (half of the probes), or one or two of Seek (preferably to a target the
+// bounds reject) / Rewind, each followed by 0-2 Next calls.
+func (r *iterRun) randPre(rev bool, lower, upper []byte) []preOp {
+	if r.rng.Intn(2) == 0 {
+		return nil
+	}
+	var pre []preOp
+	for n := 1 + r.rng.Intn(2); n > 0; n-- {
+		p := preOp{seek: r.rng.Intn(3) != 0, nexts: r.rng.Intn(3)}
+		if p.seek {
+			p.target = corr.Pick(r.rng, seekTargets)
+			if r.rng.Intn(2) == 0 {
+				// out of range for the direction, when there is a bound
+				if !rev && len(upper) > 0 {
+					p.target = append(append([]byte{}, upper...), byte(r.rng.Intn(2)))
+				} else if rev && len(lower) > 1 {
+					p.target = lower[:len(lower)-1]
+				}
+			}
+		}
+		pre = append(pre, p)
+	}
+	return pre
 }
 
 func (r *iterRun) randTOpts() tOpts {
@@ -615,8 +686,17 @@ func (r *iterRun) scan(nDB, nTxn int, fixed []string) {
 	for i := 0; i < nDB; i++ {
 		asc := r.rng.Intn(2) == 0
 		seek := r.rng.Intn(2) == 0
-		db = append(db, r.dbProbe(asc, r.rng.Intn(4) == 0, r.optBound(25), r.optBound(25), seek, corr.Pick(r.rng, seekTargets)))
+		lo, hi := r.optBound(25), r.optBound(25)
+		db = append(db, r.dbProbe(asc, r.rng.Intn(4) == 0, lo, hi, seek, corr.Pick(r.rng, seekTargets), r.randPre(!asc, lo, hi)...))
 	}
+	// fixed probes: a forward Seek exactly onto every key (table boundaries of the main
+	// levels), and Rewind after a Seek that the bounds reject
+	for _, k := range userKeys {
+		db = append(db, r.dbProbe(true, false, nil, nil, true, k))
+	}
+	db = append(db, r.dbProbe(true, false, nil, []byte("b"), false, nil, preOp{seek: true, target: []byte("k")}))
+	db = append(db, r.dbProbe(false, false, []byte("ab"), nil, false, nil, preOp{seek: true, target: []byte("a")}))
+	db = append(db, r.dbProbe(true, false, nil, nil, true, []byte("b"), preOp{seek: true, target: []byte("a"), nexts: 1}))
 	emit("db", db)
 
 	// transactions: a fresh read-only one, a fresh update one with pending writes, and the held ones
@@ -640,13 +720,27 @@ func (r *iterRun) scan(nDB, nTxn int, fixed []string) {
 			if seek && r.rng.Intn(12) == 0 {
 				target = nil
 			}
-			p := r.txnProbe(h, o, seek, target)
+			p := r.txnProbe(h, o, seek, target, r.randPre(o.rev, o.lower, o.upper)...)
 			if o.rev {
 				rev = append(rev, p)
 			} else {
 				fwd = append(fwd, p)
 			}
 		}
+		// fixed probes: a forward Seek exactly onto every key (the seek key carries readTs:
+		// for a transaction begun right after a commit that is the stored version), and
+		// sequences on one iterator: Rewind after a Seek that the bounds reject, Seek after
+		// Seek, Seek after Rewind and some Next
+		if ti == 0 || ti >= fresh {
+			for _, k := range userKeys {
+				fwd = append(fwd, r.txnProbe(h, tOpts{}, true, k))
+			}
+		}
+		fwd = append(fwd, r.txnProbe(h, tOpts{upper: []byte("b")}, false, nil, preOp{seek: true, target: []byte("k")}))
+		fwd = append(fwd, r.txnProbe(h, tOpts{}, true, []byte("b"), preOp{seek: true, target: []byte("a"), nexts: 1}))
+		fwd = append(fwd, r.txnProbe(h, tOpts{all: true}, true, []byte("ab"), preOp{nexts: 2}))
+		rev = append(rev, r.txnProbe(h, tOpts{rev: true, all: true, lower: []byte("ab")}, false, nil, preOp{seek: true, target: []byte("a")}))
+		rev = append(rev, r.txnProbe(h, tOpts{rev: true, all: true}, true, []byte("b"), preOp{seek: true, target: []byte("k"), nexts: 1}))
 		if ti == 0 {
 			// the plain scans every key iterator / point read must agree with
 			for _, rv := range []bool{false, true} {
@@ -760,6 +854,7 @@ func (r *iterRun) program(steps, nDB, nTxn int) {
 //	p k v | p k -            plain Set / Del          pc cf k v   plain SetCF
 //	v k ver v | v k ver -    SetVersionedEntry
 //	hold k=v ...             begin an update transaction with pending writes and keep it
+//	holdro                   begin a read-only transaction and keep it
 //	rot, fl, move, drain, reopen, scan
 var iterScripts = map[string][]string{
 	// F8: a committed delete must hide the older version in scans
@@ -777,6 +872,11 @@ var iterScripts = map[string][]string{
 	"pending_prefix": {"c a=1 ab=2", "hold a=5 a\x00=6 a\xff=7 ab=8", "scan"},
 	// equal internal keys in two tables of one ingest buffer (inherited finding C01-F2)
 	"dup_copies": {"c k=1", "rot", "fl", "c a=2", "v k 1 9", "rot", "fl", "move", "scan"},
+	// two main tables in L6 (two ingest drains of disjoint key ranges): the DB iterator seeks
+	// exactly onto the last key of the first one (plain-API keys carry the seek version)
+	"main_boundary_plain": {"p a 1", "p b 2", "rot", "fl", "move", "drain", "p k 3", "p z\xff 4", "rot", "fl", "move", "drain", "scan"},
+	// the same for a transaction whose readTs is the stored version of that last key
+	"main_boundary_txn": {"c a=1 b=2", "holdro", "rot", "fl", "move", "drain", "c k=3 z\xff=4", "rot", "fl", "move", "drain", "scan"},
 	// a committed empty value, read from a memtable and from a table
 	"empty_value": {"c a=~ b=1", "scan", "rot", "fl", "scan"},
 	// expiry
@@ -812,6 +912,8 @@ func (r *iterRun) script(steps []string, nDB, nTxn int) {
 		switch f[0] {
 		case "c":
 			r.commit(parseKVs(f[1:], &n))
+		case "holdro":
+			r.held = append(r.held, r.begin(false, nil))
 		case "hold":
 			r.held = append(r.held, r.begin(true, parseKVs(f[1:], &n)))
 		case "p":
@@ -883,7 +985,7 @@ func runIter(c *corr.Ctx) error {
 	installHooks()
 	c.Meta("run_module", "RunIter")
 	c.Meta("exhaustive", false)
-	c.Meta("rule", "states built on a real DB (background compaction paused, flushes gated) by random programs of transaction commits (1-3 keys; sets, deletes, expired and not yet expired entries, empty values), plain-API writes (default/lock/write column families), equal-version overwrites, memtable rotation, flushes, every compaction kind, reopen; 7 user keys incl. byte-prefix pairs and 0x00/0xFF; at checkpoints the layout is dumped with every record and DB.NewIterator, Txn.NewIterator, Txn.NewKeyIterator run under random option records (Reverse, AllVersions, KeyOnly, Prefix, SinceTs, LowerBound/UpperBound from keys and neighbours) with Rewind or Seek (targets = keys, neighbours, empty) on a fresh read-only transaction, a fresh update transaction with pending writes and transactions begun earlier, plus Txn.Get of every key; the full (cf, key, version, value) listings are compared. scripted regression programs run first. non-trivial = the state has at least two sources and one record; distinct by Gallina term")
+	c.Meta("rule", "states built on a real DB (background compaction paused, flushes gated) by random programs of transaction commits (1-3 keys; sets, deletes, expired and not yet expired entries, empty values), plain-API writes (default/lock/write column families), equal-version overwrites, memtable rotation, flushes, every compaction kind, reopen; 7 user keys incl. byte-prefix pairs and 0x00/0xFF; at checkpoints the layout is dumped with every record and DB.NewIterator, Txn.NewIterator, Txn.NewKeyIterator run under random option records (Reverse, AllVersions, KeyOnly, Prefix, SinceTs, LowerBound/UpperBound from keys and neighbours) with Rewind or Seek (targets = keys, neighbours, empty), half of them after a SEQUENCE of earlier positioning operations on the same iterator (Seek, preferably out of the bounds, / Rewind, each followed by 0-2 Next), plus fixed probes (forward Seek exactly onto every key, Rewind after a rejected Seek, Seek after Seek, Seek after Rewind+Next, forward and reverse), on a fresh read-only transaction, a fresh update transaction with pending writes and transactions begun earlier, plus Txn.Get of every key; the full (cf, key, version, value) listings are compared. scripted regression programs run first (incl. two main tables in one level after two ingest drains, with the DB iterator / a transaction whose readTs is the stored version seeking exactly onto the last key of the first table). non-trivial = the state has at least two sources and one record; distinct by Gallina term")
 	if c.Replay != "" {
 		cases, err := c.ReplayCases()
 		if err != nil {
@@ -903,7 +1005,7 @@ func runIter(c *corr.Ctx) error {
 		return nil
 	}
 	nDB, nTxn := 6, 8
-	for _, name := range []string{"tombstone", "imm_tie", "reverse_versions", "db_cf", "db_plain", "db_rseek", "pending_prefix", "expired", "empty_value", "dup_copies"} {
+	for _, name := range []string{"tombstone", "imm_tie", "reverse_versions", "db_cf", "db_plain", "db_rseek", "pending_prefix", "expired", "empty_value", "dup_copies", "main_boundary_plain", "main_boundary_txn"} {
 		runEpisode(c, episode{Seed: 7, Script: name, NDB: nDB, NTxn: nTxn})
 	}
 	n := c.Scale(8, 300)
